@@ -766,14 +766,14 @@ Proof.
         destruct (nth_cell r w) as [c|e'] eqn:En; cbn [rbind] in Hr.
         - destruct c; try discriminate; injection Hr as <-; auto.
         - injection Hr as <-. left. exact (Hnth _ _ _ En). }
-    destruct ic as [i|]; cbn [rbind ok]; [|discriminate].
-    destruct (rmap _ rs) as [ids|e3] eqn:E3; cbn [rbind]; [discriminate|].
+    clear E2. destruct ic as [i|]; cbn [rbind ok]; [|discriminate].
+    destruct (rmap _ rs) as [ids|e3] eqn:E3; cbn [rbind ok]; [discriminate|].
     intros H. injection H as <-. apply rmap_err_in in E3. destruct E3 as (r & _ & Hr).
     destruct (nth_cell r i) as [c|e'] eqn:En; cbn [rbind] in Hr.
     + destruct c; try discriminate; injection Hr as <-; auto.
     + injection Hr as <-. left. exact (Hnth _ _ _ En).
   - cbn [rbind ok]. destruct ic as [i|]; cbn [rbind ok]; [|discriminate].
-    destruct (rmap _ rs) as [ids|e3] eqn:E3; cbn [rbind]; [discriminate|].
+    destruct (rmap _ rs) as [ids|e3] eqn:E3; cbn [rbind ok]; [discriminate|].
     intros H. injection H as <-. apply rmap_err_in in E3. destruct E3 as (r & _ & Hr).
     destruct (nth_cell r i) as [c|e'] eqn:En; cbn [rbind] in Hr.
     + destruct c; try discriminate; injection Hr as <-; auto.
@@ -816,7 +816,7 @@ Proof.
   intros ncols rows rc wc ic.
   assert (Hlate : forall e, csv_rest ncols rows rc wc ic = inr e ->
                             e <> EEmptyData /\ e <> EValue /\ e <> EData).
-  { intros e H. apply csv_rest_err in H. destruct H as [->|[->|->]]; repeat split; discriminate. }
+  { intros e H. apply csv_rest_err in H. destruct H as [-> | [-> | ->]]; repeat split; discriminate. }
   split; [|split].
   - split; [|intros ->; reflexivity]. intros H. destruct rows as [|r rows']; [reflexivity|exfalso].
     rewrite load_csv_unfold in H by discriminate.
@@ -839,7 +839,8 @@ Proof.
     { rewrite existsb_exists. split.
       - intros (c & Hc & Hcb). apply in_map_iff in Hc. destruct Hc as (r & <- & Hr).
         exists r. split; [exact Hr|]. destruct (cell_at r i); try discriminate. reflexivity.
-      - intros (r & Hr & Hc). exists (cell_at r i). split; [apply in_map; exact Hr|].
+      - intros (r & Hr & Hc). exists (cell_at r i).
+        split; [apply in_map_iff; exists r; split; [reflexivity|exact Hr]|].
         rewrite Hc. reflexivity. }
     assert (Hdup : has_dup_cells (map (fun r => cell_at r i) rows) = true <->
                    exists pre r1 mid r2 post, rows = pre ++ r1 :: mid ++ r2 :: post /\
@@ -873,6 +874,19 @@ Proof.
         -- split.
            ++ intros H. apply Hlate in H. destruct H as (_ & _ & H). contradiction H. reflexivity.
            ++ intros [_ H]. apply Hdup in H. discriminate.
+Qed.
+
+(* ---------- to_csv ---------- *)
+
+Theorem to_csv_rows_spec : forall p : profile,
+  length (to_csv_rows p) = length (ballots p) /\
+  (forall i, nth_error (to_csv_rows p) i
+             = option_map (fun b => (wt b, rk b, sc b)) (nth_error (ballots p) i)) /\
+  Forall2 (fun b row => row = (wt b, rk b, sc b)) (ballots p) (to_csv_rows p).
+Proof.
+  intros p. unfold Loaders.to_csv_rows. split; [apply map_length|]. split.
+  - intros i. apply nth_error_map.
+  - induction (ballots p) as [|b bs IH]; cbn [map]; constructor; [reflexivity|exact IH].
 Qed.
 
 End WithCand.
